@@ -1,4 +1,4 @@
-import Pds.Proofs.KernelTie.Ctor
+import Pds.Proofs.KernelTie.CtorHll
 import Pds.Proofs.KernelTie.HllAdd
 /-!
 # C17 — tie by translation: register index and rank of `HyperLogLog::add_hashed`
